@@ -31,8 +31,11 @@
      FailFastOn    "anyerr" | "realerr" (context.Canceled does not trigger) | "never"
      FlattenPrefer "real" | "ctx" (a Canceled error wins over a real one) | "first" (first error of any kind)
      SkipCancelled TRUE | FALSE (the work function is called although the work context is cancelled)
-     CancelDrains  FALSE | TRUE  (repaired variant, pending_fixes/GROW-forkjoin-cancel-leak.diff: cancel() also closes
+     CancelDrains  "no" | "yes"  (repaired variant, pending_fixes/GROW-forkjoin-cancel-leak.diff: cancel() also closes
                                   the input channel and starts the closer when Join has not been called)
+                   | "either" (trace validation: the documentation -- "defer cancel() // Release any remaining
+                                  resources" -- does not say which; both are accepted, the as-coded leak is reported
+                                  as an observation)
      ExtraWorkers  0 | k         (k more worker goroutines than configured) *)
 EXTENDS Integers, Sequences, FiniteSets, TLC
 CONSTANTS FailFastOn, FlattenPrefer, SkipCancelled, CancelDrains, ExtraWorkers
@@ -205,12 +208,13 @@ Cancel ==
   /\ cn.st \in {"no", "done"}
   /\ IF dropOut THEN cn' = [st |-> "ret", pan |-> TRUE] /\ Panicked("cancel") /\ UNCHANGED <<dropOut, wctx, closed, joinSt, fk>>
      ELSE /\ dropOut' = TRUE /\ wctx' = (IF wctx = "none" THEN "ctx" ELSE wctx)
-          /\ IF CancelDrains      \* repaired variant: cancel() also closes the input and starts the closer when Join did not
-               THEN /\ closed' = TRUE /\ joinSt' = (IF joinSt = "no" THEN "waiting" ELSE joinSt)
-                    /\ IF fk.st = "blocked"      \* a fork blocked in another goroutine: send on the closed channel
-                         THEN fk' = FkRet(TRUE) /\ hst' = [hst EXCEPT !.panics = Append(@, "fork"), !.notadded = @ \cup {nfork}]
-                         ELSE UNCHANGED <<fk, hst>>
-               ELSE UNCHANGED <<closed, joinSt, fk, hst>>
+          /\ \/ /\ CancelDrains \in {"yes", "either"}   \* repaired: cancel() also closes the input and starts the closer
+                /\ closed' = TRUE /\ joinSt' = (IF joinSt = "no" THEN "waiting" ELSE joinSt)
+                /\ IF fk.st = "blocked"      \* a fork blocked in another goroutine: send on the closed channel
+                     THEN fk' = FkRet(TRUE) /\ hst' = [hst EXCEPT !.panics = Append(@, "fork"), !.notadded = @ \cup {nfork}]
+                     ELSE UNCHANGED <<fk, hst>>
+             \/ /\ CancelDrains \in {"no", "either"}    \* as coded
+                /\ UNCHANGED <<closed, joinSt, fk, hst>>
           /\ cn' = [st |-> IF cf.wait /\ joinSt' # "closed" THEN "blocked" ELSE "ret", pan |-> FALSE]
   /\ UNCHANGED <<conf, nfork, inq, idle, exited, taken, running, rel, root, pend, rcv, got, lost, jret, fl, fstart>>
 CancelWake == /\ cn.st = "blocked" /\ joinSt = "closed" /\ cn' = [cn EXCEPT !.st = "ret"]
@@ -250,7 +254,7 @@ TypeOK ==
   /\ idle + exited + Cardinality(taken) + Cardinality(running) = cf.workers + ExtraWorkers
   /\ wctx \in {"none", "ctx", "dl"} /\ root \in {"none", "ctx", "dl"} /\ (root # "none" => wctx # "none")
   /\ joinSt \in {"no", "waiting", "closed"} /\ (joinSt # "no" <=> closed) /\ (hst.joined => closed)
-  /\ (~CancelDrains => (closed <=> hst.joined))
+  /\ (CancelDrains = "no" => (closed <=> hst.joined))
   /\ Len(inq) <= cf.buf
 
 \* "every forked input yields exactly one Result carrying that input": an input that was enqueued is in exactly one place
